@@ -14,7 +14,7 @@ def NsOK (proj : Name) (r : Rec) : Bool :=
   | some (.str s) => lowerName s == lowerName proj
   | some _ => false
 
-/-- what the UNREPAIRED namespace handling needs: `integration_name` is a string, or absent in a form that supplies
+/-- what the FORMER namespace handling needs: `integration_name` is a string, or absent in a form that supplies
 the default (list form, legacy dict with a plain name) -/
 def nsShapeOK (form : Form) (r : Rec) : Bool :=
   match r.get .integrationName with
@@ -22,14 +22,14 @@ def nsShapeOK (form : Form) (r : Rec) : Bool :=
   | none => form != .dotted
   | some _ => false
 
-/-- what the UNREPAIRED time-series planner needs of a record whose `timeseries` is truthy -/
+/-- what the FORMER time-series planner needs of a record whose `timeseries` is truthy -/
 def tsShapeOK (r : Rec) : Bool :=
   !truthy (r.get .timeseries) ||
     ((match r.get .orderBy with | some (.str _) => true | _ => false) &&
      (match r.get .groupBy with | some .null => true | some (.strs _) => true | some (.str _) => true | some .dict => true | _ => false) &&
      (r.get .window).isSome)
 
-/-- what the UNREPAIRED `process_predictor` needs of `to_predict` -/
+/-- what the FORMER `process_predictor` needs of `to_predict` -/
 def targetShapeOK (r : Rec) : Bool :=
   match r.get .toPredict with
   | none => true
@@ -39,7 +39,7 @@ def targetShapeOK (r : Rec) : Bool :=
   | some _ => false
 
 /-- the record shapes on which variant `fx` of the code never raises an internal error: every repair that is in the
-code lifts one restriction; with all repairs (`CatFix.repaired`) nothing is required -/
+code lifts one restriction; with all repairs (`CatFix.live`, the code as it is) nothing is required -/
 def ShapeOK (fx : CatFix) (form : Form) (r : Rec) : Bool :=
   (fx.ns || nsShapeOK form r) && (fx.ts || tsShapeOK r) && (fx.target || targetShapeOK r)
 
@@ -129,7 +129,7 @@ theorem tsSettings_repaired (fx : CatFix) (hfx : fx.ts = true) (info : Rec) (e :
     | strs l => simp [hob] at h; subst h; trivial
     | dict => simp [hob] at h; subst h; trivial
 
-/-- the unrepaired reads raise nothing at all on a record of the shape they expect -/
+/-- the former reads raise nothing at all on a record of the shape they expect -/
 theorem tsSettings_live (fx : CatFix) (info : Rec) (ht : truthy (info.get .timeseries) = true)
     (hs : tsShapeOK info = true) : ∃ s, tsSettings fx info = .ok s ∨ ∃ e, tsSettings fx info = .error e ∧ IsUserErr e := by
   cases hfx : fx.ts
@@ -260,7 +260,7 @@ theorem planModelSelect_good (info : Rec) (co star : Bool)
 
 /-- **the catalog look-ups are total on the documented domain**: for every record `r` whose `integration_name` is absent,
 `None` or the project's name, given in any of the three metadata forms, every catalog-sensitive statement, and every
-variant `fx` of the code whose remaining restrictions `r` meets (`ShapeOK`; none for `CatFix.repaired`), registration
+variant `fx` of the code whose remaining restrictions `r` meets (`ShapeOK`; none for `CatFix.live`, the code as it is), registration
 followed by planning satisfies C09 (a well-formed plan or a user-level error) -/
 theorem planCat_good (fx : CatFix) (form : Form) (proj pns : Name) (r : Rec) (q : CQ)
     (hp : lowerName pns = lowerName proj) (hns : NsOK proj r = true) (hs : ShapeOK fx form r = true) :
